@@ -9,10 +9,11 @@ open Ta_io_c11
 
 let read_w (t : toks) : wval =
   expect t "W";
-  let ns = num t in let ss = times ns (fun () -> let s = num t in let a = num t in (n_of_int s, n_of_int a)) in
+  let ns = num t in let ss = times ns (fun () -> n_of_int (num t)) in
+  let np = num t in let ps = times np (fun () -> let s = num t in let a = num t in (n_of_int s, n_of_int a)) in
   let nf = num t in let fs = times nf (fun () -> n_of_int (num t)) in
   let ne = num t in let es = times ne (fun () -> let p = num t in let a = num t in let q = num t in ((n_of_int p, n_of_int a), n_of_int q)) in
-  { wstarts = ss; wfinals = fs; wedges = es }
+  { wstartset = ss; wsyms = ps; wfinals = fs; wedges = es }
 let read_map tag t = expect t tag; let n = num t in times n (fun () -> let k = num t in let v = num t in (n_of_int k, n_of_int v))
 
 type librec = { kind : string; ta_ : ta; tb_ : ta; wa_ : wval; wb_ : wval; m_ : (n * n) list; off_ : n; tres : ta; wres : wval }
@@ -75,7 +76,7 @@ let () = each_line (fun l ->
           | "tU" | "tL" | "tJ" | "tI" -> let x = read_ta out in if not (t_obs_eq r.tres x) then fail "replay_differs"
           | "tY" -> let x = read_ta out in let ma = read_map "MA" out in let mb = read_map "MB" out in
                     if not (t_union_gate ma mb r.ta_ r.tb_ x) then fail "replay_differs"
-          | "wU" | "wL" | "wJ" -> let x = read_w out in if not (w_obs_eq r.wres x) then fail "replay_differs"
+          | "wU" | "wL" | "wJ" -> let x = read_w out in if not (w_vis_eq r.wres x) then fail "replay_differs"
           | "wY" -> let x = read_w out in let ma = read_map "MA" out in let mb = read_map "MB" out in
                     if not (w_union_gate ma mb r.wa_ r.wb_ x) then fail "replay_differs"
           | "wI" -> let x = read_w out in let m = read_map "M" out in if not (w_image_gate m r.wa_ x) then fail "replay_differs"
@@ -136,8 +137,8 @@ let () = each_line (fun l ->
        | Some (h, k, a, b, m, off, ma, mb, x, xa, xb) ->
          let r = (try List.assoc h !seen_w with Not_found -> w_empty) in
          (match k with
-          | "wU" | "wL" -> if not (w_obs_eq r x) then fail "result_not_function_of_operands"
-          | "wJ" -> if not (w_obs_eq r x) then fail "result_not_function_of_operands";
+          | "wU" | "wL" -> if not (w_vis_eq r x) then fail "result_not_function_of_operands"
+          | "wJ" -> if not (w_vis_eq r x) then fail "result_not_function_of_operands";
                     if not (w_obs_eq r (wapp a b)) then fail "union_disjoint_value"
           | "wY" -> if not (w_union_gate ma mb a b r) then fail "union_value";
                     if not (w_union_gate xa xb a b x) then fail "result_not_function_of_operands"
